@@ -112,6 +112,17 @@ func (_this *Session) GetIteratorForType(t reflect.Type) IteratorFunction {
 		return storedIterator.(IteratorFunction)
 	}
 
+	defer func() {
+		if r := recover(); r != nil {
+			// Don't leave the placeholder behind: every later use of this
+			// type would wait forever for an iterator that never arrives.
+			_this.iteratorFuncs.Delete(t)
+			iterator = func(context *Context, value reflect.Value) { panic(r) }
+			wg.Done()
+			panic(r)
+		}
+	}()
+
 	iterator = _this.getDefaultIteratorForType(t)
 	wg.Done()
 	_this.iteratorFuncs.Store(t, iterator)
